@@ -53,7 +53,7 @@ PROPS = {
     "C03": {"units": ["INC", "UTIL"], "level": "proof", "assume": INCA,
             "not_covered": ["not covered: 're-running executes no script' across two processes is the conjunction of C03.record at the end of run 1 and C03.reflexive at the start of run 2 under A-codec, not a two-process experiment; a read error on the state file forces a rebuild"]},
     "C05": {"units": ["INC", "BLD", "ACT"], "level": "proof", "assume": INCA + ["A-chan", "A-proc", "R16"]},
-    "C06": {"units": ["ACT", "RELAY", "INC", "WCH"], "level": "proof", "assume": ACTORS + ["A-notify", "A-fs", "A-codec"],
+    "C06": {"units": ["ACT", "RELAY", "INC", "WCH", "CLN"], "level": "proof", "assume": ACTORS + ["A-notify", "A-fs", "A-codec"],
             "not_covered": ["not covered: convergence as a liveness statement; notify's delivery guarantees"]},
     "C07": {"units": ["BLD", "ACT", "RELAY", "CLN"], "level": "proof", "assume": ACTORS,
             "not_covered": ["not covered: the text of the error message"]},
